@@ -327,7 +327,7 @@ def ruleDateInterval (d : Time) (f t : Option Time) : R := do
     if da.minutes ≥ db.minutes then
       match a.hour, b.hour with
       | some ha, some hb =>
-        if ha ≤ 12 && hb ≤ 12 && ha ≥ hb then
+        if ha ≤ 12 && hb ≤ 12 && ha ≥ hb && db.minutes + 12 * 60 > da.minutes then
           let e := db.addMinutes (12 * 60)
           let _ ← dateOk e.date
           return some <| .interval (some a) (some (tsToTime e b.pod))
